@@ -358,8 +358,8 @@ impl Mon {
             self.both(&["C05", "C09"], "Cxx/Liquidate/zero-or-negative-price-used", format!("asset low {} liab high {}", show(&low_a.v), show(&high_l.v)));
             return;
         }
-        let da = pow10(abq.mint_decimals as u32);
-        let dl = pow10(lbq.mint_decimals as u32);
+        let da = pow10(balance_decimals(abq));
+        let dl = pow10(balance_decimals(lbq));
         let q = |disc: Rat| -> Iv { Iv::exact(a.clone()).mul(&Iv::exact(disc)).mul(&low_a).div(&Iv::exact(da.clone())).mul(&Iv::exact(dl.clone())).div(&high_l) };
         let q_ll = q(rq(975, 1000));
         let q_lf = q(rq(95, 100));
